@@ -100,17 +100,23 @@ func main() {
 	}
 	// 1. corpus first
 	if *corpus != "" {
-		if data, err := os.ReadFile(*corpus); err == nil {
-			for _, line := range strings.Split(string(data), "\n") {
-				line = strings.TrimSpace(line)
-				if line == "" || strings.HasPrefix(line, "#") {
-					continue
-				}
-				if b, err := lib.UnhexF(strings.Fields(line)[0]); err == nil {
-					emit(b)
-					rep.Count("stream.corpus", 1)
-				}
+		data, err := os.ReadFile(*corpus)
+		if err != nil {
+			fmt.Fprintln(os.Stderr, "harness failure: corpus:", err)
+			os.Exit(3)
+		}
+		for ln, line := range strings.Split(string(data), "\n") {
+			line = strings.TrimSpace(line)
+			if line == "" || strings.HasPrefix(line, "#") {
+				continue
 			}
+			b, err := lib.UnhexF(strings.Fields(line)[0])
+			if err != nil {
+				fmt.Fprintf(os.Stderr, "harness failure: corpus line %d: %v\n", ln+1, err)
+				os.Exit(3)
+			}
+			emit(b)
+			rep.Count("stream.corpus", 1)
 		}
 	}
 	on := func(name string) bool {
@@ -177,6 +183,10 @@ func main() {
 	if on("big") {
 		bigFamily(g, nBig, func(b []byte) { emit(b); rep.Count("stream.straddle4096", 1) })
 	}
+	// 7. deep and wide documents
+	if on("deep") {
+		deepFamily(full, func(b []byte) { emit(b); rep.Count("stream.deep_wide", 1) })
+	}
 	if len(cur) > 0 {
 		inputs <- cur
 	}
@@ -186,7 +196,7 @@ func main() {
 		fmt.Fprintln(os.Stderr, "harness failure:", e)
 		os.Exit(3)
 	}
-	rep.Rule = "inputs: corpus, exhaustive strings over class-representative alphabets, every (context, mode prefix, byte, suffix), number-shape and escape families, seeded random documents with byte mutations, tokens straddling offset 4096; each input through 8 entry variants x chunkings x {single, multi} plus 4 channel-delivery variants (Reuse requested) in multi mode; duplicates are dropped before running (64-bit hash); distinct_nontrivial counts the distinct inputs of length >= 2"
+	rep.Rule = "inputs: corpus, exhaustive strings over class-representative alphabets, every (context, mode prefix, byte, suffix), number-shape and escape families, seeded random documents with byte mutations, tokens straddling offset 4096, nesting depth 7..1025 (thorough: ..10000) of arrays, objects and both alternating (balanced, one closer short, one too many, mismatched) and containers of 100..1000 (thorough: ..20000) members; each input through 8 entry variants x chunkings x {single, multi} plus 4 channel-delivery variants (Reuse requested) in multi mode; duplicates are dropped before running (64-bit hash); distinct_nontrivial counts the distinct inputs of length >= 2"
 	if err := rep.Write(*outPath); err != nil {
 		fmt.Fprintln(os.Stderr, err)
 		os.Exit(3)
